@@ -369,6 +369,21 @@ def loops(ctx):
         # (3) any other adaptor applied directly to an input-derived range neither stops at the first failed read nor is
         #     examined above: `(0..n).flat_map(|_| de.read())` flattens every Err away and spins n times on a truncated input
         for c in body.calls(r'^std::iter::Iterator::'):
+            if c.name in ('try_for_each', 'try_fold') and re.match(r"^(&('\w+ )?(mut )?)?std::ops::Range(Inclusive)?<", c.self_ty or ''):
+                # stops at the first Err by construction; its closure must consume input fallibly on every path
+                srcs, _ = TA.sources(body, [c.args[0]]) if c.args else ([], None)
+                if not srcs:
+                    continue
+                n += 1
+                cl = lib.closure_args(F, c)
+                okc = bool(cl)
+                for (_i, cb, _rv) in cl:
+                    ok1, _cons = must_consume(F, cb, 0, cb.return_blocks())
+                    okc = okc and ok1
+                ctx.check(okc, body.key, 'chain(range<-input):closure-consumes',
+                          '%s at line %d runs an input-derived number of times but its closure can complete without a checked read of '
+                          'the input' % (c.name, c.ln), detail_ok='closure performs a checked Deserializer read on every path', where=c.where())
+                continue
             if c.name in ('map', 'next') or not re.match(r"^(&('\w+ )?(mut )?)?std::ops::Range(Inclusive)?<", c.self_ty or ''):
                 continue
             srcs, _ = TA.sources(body, [c.args[0]]) if c.args else ([], None)
@@ -1036,3 +1051,43 @@ def per_element_work_constant(ctx):
                   '%s, called once per element by a deserializer (%s), does work proportional to the container (%s): reading is '
                   'quadratic in the input size' % (gk, callees[gk], '; '.join(bad[:3])), 'no loop, no linear scan', F.bodies[gk].where())
     ctx.floor(n, 2, 'container operations called by deserializers')
+
+
+@rule('C14', 'hash-covers-every-field', configs=('default', 'p256'))
+def hash_covers_every_field(ctx):
+    """'... within time proportional to the input': the deserializers fill hash sets / maps keyed by values read from the input
+    (user identifiers, rights, attribute names). Insertion is constant-time only while distinct keys hash differently, i.e. while
+    `Hash` looks at everything `Eq` looks at: every `Hash` impl of the crate feeds EVERY field of the value, whole, to the hasher
+    (what `derive(Hash)` does). An impl that hashes part of the value (the first marker of an identifier, say) lets an input
+    put all its keys into one bucket: reading n of them costs n^2."""
+    F = ctx.F
+    n = 0
+    for i in F.impls:
+        if i.get('trait') != 'std::hash::Hash':
+            continue
+        adt = (i.get('self_head') or {}).get('adt')
+        a = F.adts.get(adt) if adt else None
+        ms = [m for m in i['items'] if m['name'] == 'hash']
+        if a is None or not ms or ms[0]['key'] not in F:
+            continue
+        hb = F.fn(ms[0]['key'])
+        if len(a['variants']) != 1:
+            # enums: the discriminant and the fields of each variant; derived impls only (left to the compiler)
+            continue
+        n += 1
+        fields = [f['name'] for f in a['variants'][0]['fields']]
+        covered = set()
+        for c in hb.calls(r'^std::hash::Hash::hash$', r'^std::hash::Hash::hash_slice$'):
+            if not c.args:
+                continue
+            for s in lib.copy_chain_sources(hb, c.args[0], through_calls=tuple(lib.IDENTITY_CALLS)):
+                if s[0] == 'param' and s[1] == 1:
+                    path = [x for x in s[2] if x != '*']
+                    if len(path) == 1:
+                        covered.add(str(path[0]))
+        missing = [f for f in fields if f not in covered]
+        ctx.check(not missing, adt, 'Hash feeds every field to the hasher',
+                  'the Hash impl of %s does not hash field(s) %s whole: values that differ only there collide, and a hash set of such '
+                  'values read from untrusted bytes degrades to a list (quadratic deserialization)' % (adt, missing),
+                  'hash(&self.f) for every field', hb.where())
+    ctx.floor(n, 4, 'Hash impls of the crate')
